@@ -1,5 +1,5 @@
 #!/usr/bin/env python3
-"""try_seed.py <prop> <letter> [--props C01,C02]: confirm a seeded change (from /tmp/seeds/<prop>/<letter>.diff + demo test)
+"""try_seed.py <prop> <letter> [--props C01,C02] [--round r2]: confirm a seeded change (from /tmp/seeds/<prop>/<letter>.diff + demo test)
 in a scratch worktree, then run the property's check (and optionally others) on /repo with the change applied, undo, and
 store the confirmed seed under /verif/seeded/<prop>-<letter>/."""
 import json, os, shutil, subprocess, sys, time
@@ -8,7 +8,10 @@ also = []
 if '--props' in sys.argv:
     also = sys.argv[sys.argv.index('--props') + 1].split(',')
 env = dict(os.environ, GOFLAGS='-mod=mod', GOPROXY='off', GOSUMDB='off', GOTOOLCHAIN='local')
-sd = '/tmp/seeds/%s' % prop
+suffix = ''
+if '--round' in sys.argv:
+    suffix = sys.argv[sys.argv.index('--round') + 1]      # e.g. r2: reads /tmp/seeds/<prop>r2, stores seeded/<prop>-<letter>r2
+sd = '/tmp/seeds/%s%s' % (prop, suffix)
 diff = '%s/%s.diff' % (sd, letter)
 demo = '%s/%s_demo_test.go' % (sd, letter)
 wt = '/tmp/wt-%s' % prop
@@ -65,7 +68,7 @@ finally:
     sh('git -C /repo checkout -- .')
 meta['checks'] = results
 meta['needs'] = open('%s/%s.md' % (sd, letter)).read() if os.path.exists('%s/%s.md' % (sd, letter)) else ''
-dst = '/verif/seeded/%s-%s' % (prop, letter)
+dst = '/verif/seeded/%s-%s%s' % (prop, letter, suffix)
 os.makedirs(dst, exist_ok=True)
 shutil.copy(diff, dst + '/patch.diff'); shutil.copy(demo, dst + '/demo_test.go')
 meta['ran'] = ['scratch worktree %s: demo without change (pass), with change (fail), full suite with change (unchanged)' % wt,
